@@ -18,7 +18,7 @@ class C03(Prop):
     imports = "From Tola Require Import Py.Base Model.Fragment Model.Scaffold Model.Fasta Model.Stream Corr.Fasta."
     show_fn = "show"
     design_ref = "6/C03"
-    required_theorems = ['C03_write_scaffold_spec', 'C03_wrap_lines', 'C03_write_assembly_spec', 'C03_record_length', 'C03_premises_satisfiable']
+    required_theorems = ['C03_write_scaffold_spec', 'C03_wrap_lines', 'C03_write_assembly_spec', 'C03_record_length', 'C03_premises_satisfiable', 'C03_index_then_stream']
 
     def rule(self):
         return (
